@@ -144,19 +144,20 @@ class Scenario:
             s.fs.resolve_connect(ev[2])
             nw.world.obs("env_resolve", s.fs.sid, ev[2])
             nw.run()
-        elif kind in ("ans", "ans2"):
+        elif kind in ("ans", "ans2", "ansnr"):
             j = ev[1]
             if j >= len(nw.requests):
                 return False
             done = [r for r in self.answer_results if r[0] == j]
-            if kind == "ans" and done:
+            if kind in ("ans", "ansnr") and done:
                 return False
             if kind == "ans2" and not done:
                 return False
             app, msg = nw.requests[j]
             before = {s.idx: len(s.fs.sent) for s in self.socks}
             try:
-                app.send_answer(app.generate_answer(msg, result_code=2001))
+                # "ansnr": the application's answer carries no Result-Code AVP
+                app.send_answer(app.generate_answer(msg, result_code=2001 if kind != "ansnr" else None))
                 res = "sent"
             except Exception as e:
                 res = type(e).__name__
